@@ -130,8 +130,11 @@ def alternatives(cls, name, value):
         out += [not value]
     elif isinstance(value, int):
         out += [value + 1]
+        if any(c is float for c in cands):
+            # a float field whose constant is written as an int literal: values a hair / half a unit away from it are changes too
+            out += [value + 0.5, value + 1e-6]
     elif isinstance(value, float):
-        out += [value * 1.5 + 0.125]
+        out += [value * 1.5 + 0.125, value + 1e-6 if value >= 0 else value - 1e-6]
     elif isinstance(value, list) and value and all(isinstance(x, (int, float)) for x in value):
         out += [[x * 2 for x in value]]
     elif value is None:
@@ -140,7 +143,7 @@ def alternatives(cls, name, value):
                 out += [0.25]
             if c is int:
                 out += [3]
-    return out[:3]
+    return out[:4]
 
 
 def try_build(cls, kwargs):
@@ -163,7 +166,7 @@ def replay(case):
             kw.update(developer_mode=case["developer_mode"], silent_developer_mode=True)
         ok, _ = try_build(S.DailySettings, kw)
         return {"ok": ok == bool(case["developer_mode"]), "problems": [f"accepted={ok}"]}
-    if case.get("kind") in ("constant", "flags", "published", "order"):
+    if case.get("kind") in ("constant", "flags", "published", "order", "wavelet", "stored_record"):
         r = run("quick", 0)
         mine = [v for v in r["violations"] if v["case"] == case or v["case"].get("field") == case.get("field")]
         return {"ok": not mine, "problems": [v["detail"] for v in mine]}
@@ -229,7 +232,9 @@ def run(tier="quick", seed=0):
                 "every field of the daily / legacy / billing / hourly (solar, non-solar) settings trees x up to 3 alternative values x key written "
                 "{exact, UPPER, padded} x nested settings given as {dict, object} x developer_mode {absent, False, True} x silent_developer_mode "
                 "{absent, True}: construction rejected iff (developer-only field changed and developer mode off) or the value is invalid on its own; "
-                "accepted objects dump the value given. Plus table obligations C14.constants / C14.flags. distinct = case tuple", exhaustive=True,
+                "accepted objects dump the value given (numeric alternatives include values 1e-6 and 0.5 away from the constant); hourly wavelet names against pywt's list of "
+                "discrete wavelets; stored records that say developer_mode false but carry a changed developer-only value are not loaded. Plus table obligations C14.constants / "
+                "C14.flags. distinct = case tuple", exhaustive=True,
                 known_findings=known)
     approved = json.load(open(APPROVED))
     tabs = current_tables()
@@ -284,6 +289,60 @@ def run(tier="quick", seed=0):
                    nontrivial_key=("nested_other_class", dm), detail=f"accepted={ok}, expected={expect}")
     except Exception as e:  # noqa
         b.case("C14.enum.nested_other_class", {"kind": "nested_other_class"}, False, nontrivial_key="nested_other_class", detail=repr(e))
+    # strings with an independent validity oracle: wavelet names of the hourly tree (only DISCRETE wavelets can be used by the discrete transform)
+    try:
+        import pywt
+        from opendsm.eemeter.models.hourly import settings as hs
+        discrete = set(pywt.wavelist(kind="discrete"))
+        names = ["haar", "db2", "sym4", "coif1", "bior1.3", "morl", "mexh", "gaus1", "cgau2", "shan", "fbsp", "cmor", "no_such_wavelet", ""]
+        for prof, cls in profiles().items():
+            if not prof.startswith("hourly"):
+                continue
+            flat = flatten(norm(cls().model_dump()))
+            for field in [f for f in flat if f.split(".")[-1] in ("wavelet_name", "wavelet")]:
+                for nm in names:
+                    kw = nm
+                    path = field.split(".")
+                    kwargs = {path[-1]: nm}
+                    for pth in reversed(path[:-1]):
+                        kwargs = {pth: kwargs}
+                    ok, obj = try_build(cls, kwargs)
+                    want = nm in discrete
+                    b.case("C14.enum.invalid_rejected", {"kind": "wavelet", "profile": prof, "field": field, "value": nm}, ok == want,
+                           nontrivial_key=("wavelet", prof, field, nm), detail=f"wavelet name {nm!r}: accepted={ok}, a discrete wavelet={want}")
+    except ImportError:
+        pass
+    # the lock also holds for a STORED record: a document that says developer_mode false but carries a changed developer-only value is not loaded
+    try:
+        from opendsm.eemeter.models.daily.model import DailyModel
+        from opendsm.eemeter.models.billing.model import BillingModel
+        from bounded.C01_roundtrip import param_doc
+        for fam, M in (("daily", DailyModel), ("billing", BillingModel)):
+            for field, val in (("cvrmse_threshold", 0.5), ("alpha_selection", 1.5), ("split_selection.penalty_power", 3.0)):
+                doc = json.loads(json.dumps(param_doc("daily", "hdd_tidd_cdd", "unsplit", False), default=str))
+                st = doc["settings"]
+                st["developer_mode"] = False
+                path = field.split(".")
+                tgt = st
+                for pth in path[:-1]:
+                    tgt = tgt.get(pth, {})
+                if path[-1] not in tgt:
+                    continue
+                tgt[path[-1]] = val
+                import io as _io
+                import contextlib as _cl
+                try:
+                    with _cl.redirect_stdout(_io.StringIO()):
+                        loaded = M.from_dict(doc)
+                    dm = getattr(loaded.settings, "developer_mode", None)
+                    ok = False
+                    detail = f"{M.__name__}.from_dict loaded a record with developer_mode false and {field} = {val} (loaded developer_mode = {dm})"
+                except Exception as e:  # noqa
+                    ok, detail = True, f"rejected: {type(e).__name__}"
+                b.case("C14.enum.stored_record_lock", {"kind": "stored_record", "family": fam, "field": field, "value": val}, ok,
+                       nontrivial_key=("stored", fam, field), detail=detail)
+    except ImportError:
+        pass
     # enumeration
     import io
     import contextlib
